@@ -97,10 +97,10 @@ fn run_world(is_req: bool, plans: &[Vec<Call>], npeers: usize, late: usize, scri
         attached[p] = true;
         if is_req {
           let l = stack::link_pair(&s, &ps, 1 << 16).await;
-          std::mem::forget(l);
+          mc_core::world::keep(l);
         } else {
           let l = stack::link_pair(&ps, &s, 1 << 16).await;
-          std::mem::forget(l);
+          mc_core::world::keep(l);
         }
       }
       peers.push(Some(ps));
@@ -181,7 +181,7 @@ fn run_world(is_req: bool, plans: &[Vec<Call>], npeers: usize, late: usize, scri
           if let (Some(ps), false) = (&peers[p], attached[p]) {
             attached[p] = true;
             let l = if is_req { stack::link_pair(&s, ps, 1 << 16).await } else { stack::link_pair(ps, &s, 1 << 16).await };
-            std::mem::forget(l);
+            mc_core::world::keep(l);
           }
         }
       }
@@ -220,6 +220,13 @@ fn judge(is_req: bool, obs: &Obs) -> Vec<(String, String, String)> {
     }
     if ok {
       if is_send != expect_send {
+        // what preceded the out-of-turn success: rzmq deliberately lets a REQ send again after a
+        // recv() that timed out or after the peer holding the request vanished (both recorded as
+        // known findings: the property text makes no such exception); anything else is a race
+        let idx = obs.log.iter().position(|l| std::ptr::eq(l, e)).unwrap_or(0);
+        let after_timeout = is_req && is_send && obs.log[..idx].iter().rev().take_while(|l| !l.result.starts_with("ok:")).any(|l| !matches!(l.call, Call::Send | Call::SendMp) && l.result == "err:timeout");
+        let after_disconnect = is_req && is_send && obs.peers_alive.iter().any(|a| !*a);
+        let class = format!("{}{}", class, if after_timeout { ":after-recv-timeout" } else if after_disconnect { ":after-peer-disconnect" } else { "" });
         v.push((
           "alternation-broken".into(),
           class.clone(),
@@ -364,7 +371,7 @@ pub fn run(tier: Tier) -> Report {
   let mut rep = Report::new("C10", tier, "model_checking");
   rep.assume("racing callers are serialised at the verif::sched gates placed between the state check and the state update in REQ send/recv and REP recv/send; every order in which parked callers are released, interleaved with peer replies/requests/disconnects, is enumerated; the success log is ordered by call completion");
   rep.assume("a call that fails with a timeout is not counted as a success; REQ.send_multipart is unsupported by design and ignored");
-  let depth = tier.pick(7, 9);
+  let depth = tier.pick(7, 11);
   for (is_req, name) in [(true, "req"), (false, "rep")] {
     // one caller: all sequential histories up to length 4 (thorough 4), one peer
     let mut sub = Sub::new(&format!("{}-sequential", name), "E3");
